@@ -192,6 +192,9 @@ func (o *OracleC20) After(x *Exec, op *Op, res *Res) {
 		if fl.Cmp(got) == 0 {
 			return true
 		}
+		if x.PrecisionCollapsed(d.Denom) {
+			return true // listed finding F-C04a: reports are not meaningful for this asset any more
+		}
 		// the module knows values only to the stated fixed-point tolerance
 		tol := assetTol(s, s, d.Denom)
 		diff := new(big.Rat).Sub(new(big.Rat).SetInt(got), v)
@@ -431,7 +434,7 @@ func (o *OracleC20) probes(x *Exec, s *Snap) {
 			// come out below (or above) the request and the module refuses it with its
 			// insufficient shares/tokens checks. Signature: that regime + that refusal.
 			// (Whether the position can still leave with some other amount is C05's question.)
-			if degenerateAsset(s, d.Denom) || orphanedValidator(s, d.Denom) {
+			if x.PrecisionCollapsed(d.Denom) || degenerateAsset(s, d.Denom) || orphanedValidator(s, d.Denom) {
 				x.KnownFinding("F-C04a") // ownerless-value state after a 100% slash: reports are meaningless there
 				x.Label("c20:ownerless-value-state")
 				continue
